@@ -24,7 +24,7 @@ for p in props:
             'evidence_file': '/verif/evidence/%s.json' % pid,
             'replay_cmd_template': 'python3 tools/replay.py {path}',
             'engine': 'cbmc-dfcc',
-            'level_claimed': {'category': 'proof', 'text': c.get('level_text', ''), 'design_ref': 'DESIGN.md section 6, ' + pid},
+            'level_claimed': {'category': c.get('category', 'proof'), 'text': c.get('level_text', ''), 'design_ref': 'DESIGN.md section 6, ' + pid},
             'level_note': c.get('level_note', ''),
             'technique': c.get('technique', 'contract-based deductive verification: CBMC code contracts (DFCC) on C extracted from the clang AST of the real functions'),
         })
